@@ -175,6 +175,10 @@ def forge_pruned(rng, target, how):
     """a pruned branch with a substituted stored hash or depth"""
     bits = target.bits
     n = rc.popcount(target.mask)
+    if how == 'pruned-mask':
+        # one more (or one other) level claimed in the mask byte, the data left as it is: the layout no longer fits the mask - not a valid cell
+        i = 8 + rng.choice([5, 6] if target.mask & 1 else [7, 6])
+        return rc.RC(bits[:i] + ('1' if bits[i] == '0' else '0') + bits[i + 1:], (), rc.PRUNED, validate=False)
     if how == 'pruned-hash':
         i = 16 + rng.randrange(256 * n)
     else:
@@ -325,6 +329,39 @@ class Proofs:
                         continue
                     self.expect_reject('check_proof', f'{how}:{variant}', lambda: cp.check_proof(fc, H), dict(W, mutation=how, forged_boc=rc.encode_boc([forged]) if len(gen.all_cells(forged)) < 40 else None))
                 R.case(mon.fp('gm', H, t.hash, how, m.hash))
+            # the Merkle proof cell on top is an unpruned cell of the proof like any other: its depth field (all 16 bits), its length and its reference count
+            pb = proof.bits
+            root_forgeries = [(f'proof-cell-depth-bit', pb[:i] + ('1' if pb[i] == '0' else '0') + pb[i + 1:], (child,)) for i in range(264, 280)]
+            root_forgeries += [('proof-cell-byte-appended', pb + '00000000', (child,)), ('proof-cell-depth-field-cut', pb[:264], (child,)),
+                               ('proof-cell-second-reference', pb, (child, rc.RC('1'))), ('proof-cell-no-reference', pb, ())]
+            # a pruned branch that claims one more level in its mask byte than its data has slots for (built with the library's own constructors: the
+            # reference cannot even hash such a cell) directly under the proof cell
+            if child.type == rc.PRUNED:
+                from bitarray import bitarray as _ba
+                B_ = bridge.lib()
+                for flip in ((14,) if child.mask & 2 == 0 else ()) + ((13,) if child.mask & 4 == 0 else ()):
+                    cb = child.bits[:flip] + '1' + child.bits[flip + 1:]
+                    st3, fc = mon.call(lambda: B_.Cell(_ba(pb), [B_.Cell(_ba(cb), [], rc.PRUNED)], rc.MPROOF))
+                    R.cover('operators_check_proof', 'pruned-mask-claims-more-levels')
+                    if st3 == 'exc':
+                        R.count('forgeries_refused_at_construction')
+                        R.counters['oracle_evaluations'] += 1
+                        continue
+                    self.expect_reject('check_proof', 'pruned-mask-claims-more-levels', lambda: cp.check_proof(fc, H), dict(W, mutation='pruned-mask', mask_bit=flip))
+            for how, fbits, frefs in root_forgeries:
+                for route in ('builder', 'boc'):
+                    try:
+                        forged = rc.RC(fbits, frefs, rc.MPROOF, validate=False)
+                    except Exception:
+                        R.count('forgery_not_expressible')
+                        continue
+                    st3, fc = try_build(forged, route)
+                    R.cover('operators_check_proof', how)
+                    if st3 == 'exc':
+                        R.count('forgeries_refused_at_construction')
+                        R.counters['oracle_evaluations'] += 1
+                        continue
+                    self.expect_reject('check_proof', f'{how}', lambda: cp.check_proof(fc, H), dict(W, mutation=how, route=route))
 
     # ---- proofs over trees that embed Merkle cells: pruning below them uses levels 2 and 3 (sparse masks)
     def nested(self, rng):
@@ -685,6 +722,18 @@ class Proofs:
         rej('one-root-only', lambda: cp.check_account_proof(rc.encode_boc([bp]), blk, addr, acc_lib))
         rej('three-roots', lambda: cp.check_account_proof(rc.encode_boc([bp, sp, sp]), blk, addr, acc_lib))
         rej('roots-swapped', lambda: cp.check_account_proof(rc.encode_boc([sp, bp]), blk, addr, acc_lib))
+        # (3b) roots that are not Merkle proof cells: ordinary cells holding the same children, the bare children, a Merkle update in place of a proof
+        for rname, mk in (('ordinary-wrapper', lambda x: rc.RC('', (x.refs[0],))), ('ordinary-wrapper-with-proof-bits', lambda x: rc.RC(x.bits, (x.refs[0],))),
+                          ('merkle-update', lambda x: rc.make_merkle_update(x.refs[0], x.refs[0]))):
+            for which in ('block', 'state', 'both'):
+                try:
+                    r0 = mk(bp) if which in ('block', 'both') else bp
+                    r1 = mk(sp) if which in ('state', 'both') else sp
+                    forged_proof = rc.encode_boc([r0, r1])
+                except Exception:
+                    R.count('forgery_not_expressible')
+                    continue
+                rej(f'root-not-merkle-proof:{rname}:{which}', lambda: cp.check_account_proof(forged_proof, blk, addr, acc_lib))
         # (4) a bit of an unpruned cell of the state proof changed (Merkle cell recomputed)
         for t in rng.sample(unpruned_cells(state_child), min(3, len(unpruned_cells(state_child)))):
             m = mutate_cell(rng, t, rng.choice(['flip-bit', 'swap-refs', 'drop-bit']))
